@@ -41,7 +41,8 @@ def staticSize (p : SKProvider) : Expr → Option Nat
   | .un _ _ => none
   | .bin .Concat l r =>
     match staticSize p l, staticSize p r with
-    | some a, some b => some (a + b)
+    -- a sum that does not fit a machine word has no static size (finding F82, repaired: it wrapped)
+    | some a, some b => if a + b < USIZE_MAX1 then some (a + b) else none
     | _, _ => none
   | .bin _ _ _ => none
   | .slice hi lo _ =>
